@@ -740,8 +740,6 @@ def classify(tr: dict, reached: int) -> tuple[dict, str]:
         f = e.get("_feats", {})
         sig.update({k: f.get(k, False) for k in ("tuple_in_source", "bound_in_source", "merged_source", "mapspec_in_source",
                                                   "scoped_params_in_source")})
-        if e["kind"] in ("nest", "simplified"):
-            sig["merged_tuple_leaf"] = f.get("merged_tuple_leaf", False)
         if e["kind"] == "nest":
             sig["nest_reduces_mapped_name"] = f.get("nest_reduces_mapped_name", False)
         if e["e"] == "rewrite":
@@ -780,16 +778,14 @@ def classify(tr: dict, reached: int) -> tuple[dict, str]:
                                       or (last["e"] == "new" and oid == last["id"]))
         prev_ok = any(x["e"] == e["e"] and x["id"] == oid and x["out"] == e["out"] and not x["exc"] for x in evs[:reached - 1])
         sig.update({"kind": "", "mode": e["mode"], "last_kind": last["kind"] if last and last["e"] != "new" else "new",
-                    "target_of_last_op": tgt_of_last,
                     "aliasing": (not tgt_of_last) and prev_ok,
                     "via_merge": any(k in ("nest", "simplified") for k in lin),
                     "renamed_after_merge": any(k in ("update_renames", "update_scope", "remove_scope") and
                                                any(m in ("nest", "simplified") for m in lin[j + 1:]) for j, k in enumerate(lin)),
                     "bound_after_pickle": any(k == "update_bound" and "pickle" in lin[j + 1:] for j, k in enumerate(lin)),
-                    "via_axis": "add_mapspec_axis" in lin, "via_pickle": "pickle" in lin,
-                    "merged_tuple_leaf": feats["merged_tuple_leaf"], "bound_in_merged": feats["bound"],
-                    "nest_reduces_mapped_name": feats["reduces"],
-                    "tuple_in_source": feats["tuple"], "mutated": feats["mutated"]})
+                    "via_axis": "add_mapspec_axis" in lin,
+                    "merged_tuple_leaf": feats["merged_tuple_leaf"],
+                    "nest_reduces_mapped_name": feats["reduces"]})
         did = (f"evaluated {e['out'] or 'map'} with {dict((k, '..') for k, _ in e['inputs'])}" if e["e"] == "eval" else
                f"copied for inspection, structure {e['struct']}")
         what = (f"object {oid} (history {list(reversed(lin))}) {did}: "
